@@ -12,11 +12,21 @@
   hypothesis and exhibited by `addConst_untrimmed_witness`): `&p + &k` (`addConst`) does not
   truncate, so a constant polynomial `[c]` plus `k = −c` yields the untrimmed list `[0]`
   (which `is_zero()` still recognises as zero, and `degree()` reports as 0).
+
+  Sections 5–6: `batch_inversion` and the closed-form evaluations of `src/fft/domain.rs` /
+  `src/proof_system/linearization_poly.rs`.  A domain is assumed well formed (`DomainOK d`:
+  `size > 0`, `group_gen` a primitive `size`-th root of unity, `size_inv = size⁻¹`,
+  `group_gen_inv = group_gen⁻¹`); `new_domain_ok` proves this for every domain returned by
+  `EvaluationDomain::new`.  `L_i(τ)` is `lagrangeF n ω τ i = (τ^n − 1)·ω^i / (n·(τ − ω^i))`.
+  Forced side conditions (all benign, they restate that the model's `fpow` takes exponents
+  `< 2^256`, while the Rust exponents are `u64`): `deg < 2^256` in `vanishingOverCoset_spec`,
+  `evals.length ≤ 2^256` in `barycentric_spec`.
 -/
 import Plonk.Proofs.PolyBridge
+import Plonk.Proofs.DomainSpec
 
 namespace Plonk.Props.C19Poly
-open Plonk Polynomial
+open Plonk Plonk.PolyC19 Polynomial
 
 /-! ## 1. interpretation -/
 
@@ -158,5 +168,154 @@ example : (toPoly [R - 1, 0, 1]).eval (toF 1) = 0 := by
   rw [← Plonk.evaluate_spec]
   have : Poly.evaluate [R - 1, 0, 1] 1 = 0 := by decide +kernel
   rw [this]; simp
+
+
+/-! ## 5. batch inversion -/
+
+/-- `batch_inversion`: length preserved; every entry is replaced by its inverse, zero entries
+    (mod `R`) become / stay `0`; all outputs are reduced -/
+theorem batchInversion_spec (v : List Nat) :
+    (batchInversion v).length = v.length ∧
+    ∀ i (h : i < v.length), ∃ h' : i < (batchInversion v).length,
+      toF (batchInversion v)[i] = (toF v[i])⁻¹ ∧ (batchInversion v)[i] < R ∧
+      (v[i] % R = 0 → (batchInversion v)[i] = 0) ∧
+      (v[i] % R ≠ 0 → toF v[i] * toF (batchInversion v)[i] = 1) :=
+  ⟨batchInversion_length v, batchInversion_entry v⟩
+example : batchInversion [2, 0, R, 1] = [(R + 1) / 2, 0, 0, 1] := by decide +kernel
+
+/-! ## 6. closed forms on a domain -/
+
+/-- every domain returned by `EvaluationDomain::new` is well formed -/
+theorem new_domain_ok (k : Nat) (d : Domain) (h : Domain.new? k = some d) : DomainOK d :=
+  domainOK_of_new? k d h
+example : ∃ d : Domain, Domain.new? 4 = some d ∧ d.size = 4 ∧ DomainOK d := exists_domainOK_four
+
+/-- `ROOT_OF_UNITY` is a primitive `2^32`-th root of unity -/
+theorem root_of_unity_primitive : IsPrimitiveRoot (toF ROOT_OF_UNITY) (2 ^ 32) := root_primitive
+
+/-- `elements()` = `[ω^0, …, ω^(n−1)]` (canonical representatives) -/
+theorem elements_spec (d : Domain) :
+    d.elements = (List.range d.size).map (fun i => (toF d.groupGen ^ i).val) ∧
+    d.elements.map toF = (List.range d.size).map (fun i => toF d.groupGen ^ i) :=
+  ⟨elements_eq d, elements_map_toF d⟩
+example : ∃ d : Domain, Domain.new? 4 = some d ∧ d.elements.length = 4 := by
+  obtain ⟨d, hd, hs, _⟩ := exists_domainOK_four
+  exact ⟨d, hd, by rw [elements_length, hs]⟩
+
+/-- `evaluate_vanishing_polynomial(τ) = τ^n − 1 = ∏_{i<n} (τ − ω^i)` -/
+theorem vanishing_spec {d : Domain} (ok : DomainOK d) (tau : Nat) :
+    toF (d.evaluateVanishing tau) = toF tau ^ d.size - 1 ∧
+    toF tau ^ d.size - 1 = ∏ i ∈ Finset.range d.size, (toF tau - toF d.groupGen ^ i) :=
+  ⟨toF_evaluateVanishing ok.size_lt tau, vanishing_eq_prod ok.size_pos ok.prim _⟩
+example : ∃ d : Domain, DomainOK d := let ⟨d, _, _, ok⟩ := exists_domainOK_four; ⟨d, ok⟩
+
+/-- membership in the domain: `τ^n = 1 ↔ τ = ω^i` for some `i < n` -/
+theorem mem_domain_iff {d : Domain} (ok : DomainOK d) (tau : Nat) :
+    toF tau ^ d.size = 1 ↔ ∃ i < d.size, toF tau = toF d.groupGen ^ i :=
+  pow_eq_one_iff_mem ok.size_pos ok.prim _
+
+/-- `evaluate_all_lagrange_coefficients(τ)`, `τ` outside the domain: entry `i` is `L_i(τ)`;
+    `L_i(τ)` is the value at `τ` of the Lagrange basis polynomial `∏_{j≠i} (X − ω^j)/(ω^i − ω^j)`
+    (degree `< n`, `1` at `ω^i`, `0` at the other `ω^j`), hence `Σ_i L_i(τ)·f(ω^i) = f(τ)` for every
+    `f` of degree `< n` -/
+theorem lagrangeCoeffs_spec_outside {d : Domain} (ok : DomainOK d) (tau : Nat)
+    (h : toF tau ^ d.size ≠ 1) :
+    d.lagrangeCoeffs tau =
+      (List.range d.size).map (fun i => (lagrangeF d.size (toF d.groupGen) (toF tau) i).val) ∧
+    (∀ i < d.size, lagrangeF d.size (toF d.groupGen) (toF tau) i =
+      eval (toF tau) (Lagrange.basis (Finset.range d.size) (fun i : ℕ => toF d.groupGen ^ i) i)) ∧
+    (∀ f : F[X], f.degree < d.size →
+      ∑ i ∈ Finset.range d.size,
+        lagrangeF d.size (toF d.groupGen) (toF tau) i * f.eval (toF d.groupGen ^ i) = f.eval (toF tau)) :=
+  ⟨lagrangeCoeffs_outside ok tau h,
+   fun _ hi => lagrangeF_eq_basis ok.size_pos ok.prim h hi,
+   fun f hf => sum_lagrangeF_mul_eval ok.size_pos ok.prim h f hf⟩
+example : ∃ d : Domain, DomainOK d ∧ toF 2 ^ d.size ≠ 1 := by
+  obtain ⟨d, _, hs, ok⟩ := exists_domainOK_four
+  exact ⟨d, ok, by rw [hs]; exact two_pow_four_ne_one⟩
+
+/-- `τ = ω^k` in the domain: the indicator vector of `k` -/
+theorem lagrangeCoeffs_spec_inside {d : Domain} (ok : DomainOK d) (tau k : Nat) (hk : k < d.size)
+    (h : toF tau = toF d.groupGen ^ k) :
+    d.lagrangeCoeffs tau = (List.range d.size).map (fun i => if i = k then 1 else 0) :=
+  lagrangeCoeffs_inside ok tau k hk h
+example : ∃ d : Domain, DomainOK d ∧ 2 < d.size ∧
+    toF (toF d.groupGen ^ 2).val = toF d.groupGen ^ 2 := by
+  obtain ⟨d, _, hs, ok⟩ := exists_domainOK_four
+  exact ⟨d, ok, by omega, toF_val _⟩
+
+/-- `compute_barycentric_eval`: `Σ_i evals[i]·L_i(point)`; outside the domain and with one
+    evaluation per element this is the value of the interpolation polynomial at `point` -/
+theorem barycentric_spec {d : Domain} (ok : DomainOK d) (evals : List Nat) (point : Nat)
+    (hlen : evals.length ≤ 2 ^ 256) :
+    toF (d.barycentric evals point) =
+      ∑ i ∈ Finset.range evals.length,
+        toF (evals.getD i 0) * lagrangeF d.size (toF d.groupGen) (toF point) i ∧
+    (evals.length = d.size → toF point ^ d.size ≠ 1 →
+      toF (d.barycentric evals point) =
+        eval (toF point) (Lagrange.interpolate (Finset.range d.size)
+          (fun i : ℕ => toF d.groupGen ^ i) (fun i => toF (evals.getD i 0)))) :=
+  ⟨barycentric_eq ok evals point hlen, fun h1 h2 => barycentric_eq_interpolate ok evals point h1 h2⟩
+example : ∃ d : Domain, DomainOK d ∧ [5, 0, 7, 1].length = d.size ∧ toF 2 ^ d.size ≠ 1 := by
+  obtain ⟨d, _, hs, ok⟩ := exists_domainOK_four
+  exact ⟨d, ok, by rw [hs]; rfl, by rw [hs]; exact two_pow_four_ne_one⟩
+
+/-- `compute_lagrange_and_barycentric_evaluations` fails exactly when a denominator vanishes -/
+theorem lagrangeAndPi_none_spec {d : Domain} (ok : DomainOK d) (roots evals : List Nat)
+    (point : Nat) :
+    d.lagrangeAndPi roots evals point = none ↔
+      toF point = 1 ∨ ∃ re ∈ roots.zip evals, toF re.2 ≠ 0 ∧ toF re.1 * toF point = 1 :=
+  lagrangeAndPi_eq_none_iff ok roots evals point
+
+/-- … and otherwise returns `(L_0(point), Σ_j evals[j]·(Z_H(point)/n)/(root_j·point − 1))`;
+    a term with `root_j = ω^(−i)` is `evals[j]·L_i(point)` -/
+theorem lagrangeAndPi_some_spec {d : Domain} (ok : DomainOK d) (roots evals : List Nat)
+    (point l1 pi : Nat) (h : d.lagrangeAndPi roots evals point = some (l1, pi)) :
+    (toF l1 = lagrangeF d.size (toF d.groupGen) (toF point) 0 ∧
+     toF pi = ((roots.zip evals).map (fun re : Nat × Nat =>
+       toF re.2 * ((toF point ^ d.size - 1) * ((d.size : F))⁻¹ *
+         (toF re.1 * toF point - 1)⁻¹))).sum ∧
+     l1 < R ∧ pi < R) ∧
+    (∀ (e : F) (i : Nat),
+      e * ((toF point ^ d.size - 1) * ((d.size : F))⁻¹ *
+          ((toF d.groupGen)⁻¹ ^ i * toF point - 1)⁻¹) =
+        e * lagrangeF d.size (toF d.groupGen) (toF point) i) :=
+  ⟨lagrangeAndPi_some ok roots evals point l1 pi h, fun e i => pi_term_eq_lagrangeF ok _ e i⟩
+example : ∃ d : Domain, DomainOK d ∧ (d.lagrangeAndPi [1] [3] 2).isSome = true := by
+  obtain ⟨d, _, hs, ok⟩ := exists_domainOK_four
+  refine ⟨d, ok, ?_⟩
+  rw [Option.isSome_iff_ne_none, Ne, lagrangeAndPi_eq_none_iff ok]
+  have h21 : toF 2 ≠ 1 := by
+    rw [← toF_one, Ne, toF_inj_of_lt (by decide +kernel) R_gt_one]; decide
+  rintro (h | ⟨re, hre, _, h1⟩)
+  · exact h21 h
+  · simp only [List.zip_cons_cons, List.zip_nil_right, List.mem_singleton] at hre
+    subst hre
+    rw [toF_one, one_mul] at h1
+    exact h21 h1
+
+/-- `vanishing_poly_over_coset(deg)`: entry `i` is `(g·ω^i)^deg − 1` with `g = 7` -/
+theorem vanishingOverCoset_spec (d : Domain) (deg : Nat) (hdeg : deg < 2 ^ 256) :
+    d.vanishingOverCoset deg =
+      (List.range d.size).map (fun i => (((7 : F) * toF d.groupGen ^ i) ^ deg - 1).val) :=
+  vanishingOverCoset_eq d deg hdeg
+example : (8 : Nat) < 2 ^ 256 := by norm_num
+
+/-- `matches_linear_over_coset` accepts exactly the evaluations of `X` on the coset -/
+theorem matchesLinearOverCoset_spec (d : Domain) (ev : List Nat) :
+    d.matchesLinearOverCoset ev = true ↔
+      ev = (List.range d.size).map (fun i => ((7 : F) * toF d.groupGen ^ i).val) :=
+  matchesLinearOverCoset_iff d ev
+
+/-- `matches_vanishing_over_coset` accepts exactly `deg < n` and the evaluations of
+    `X^deg − 1` on the coset -/
+theorem matchesVanishingOverCoset_spec {d : Domain} (ok : DomainOK d) (deg : Nat) (ev : List Nat) :
+    d.matchesVanishingOverCoset deg ev = true ↔
+      deg < d.size ∧
+      ev = (List.range d.size).map (fun i => (((7 : F) * toF d.groupGen ^ i) ^ deg - 1).val) :=
+  matchesVanishingOverCoset_iff d deg ev ok.size_lt.le
+example : ∃ d : Domain, DomainOK d ∧ 1 < d.size := by
+  obtain ⟨d, _, hs, ok⟩ := exists_domainOK_four
+  exact ⟨d, ok, by omega⟩
 
 end Plonk.Props.C19Poly
